@@ -84,6 +84,10 @@ def gen_op(rng, s) -> Dict[str, Any]:
             return {"op": "crn_big", "s": s(), "workers": rng.choice([2, 3, 8])}
         return {"op": "validate_big", "s": s(), "n_rows": rng.choice([300, 520]), "n_jobs": rng.choice([2, 3, 4]),
                 "method": rng.choice(["RC", "ITS"]), "p_ok": rng.choice([0.5, 0.9])}
+    if rng.random() < 0.02:
+        # an input where one rule application fails inside the reactor: both modes must agree on the outcome
+        seeds = rng.sample(RAISE_SEEDS, rng.choice([2, 3, 4]))
+        return {"op": "crn_raise", "s": s(), "rules": rng.choice([[0, 1], [1, 0], [1, 0, 1]]), "seeds": seeds, "workers": rng.choice([None, 2, 3])}
     c = rng.random()
     n_rules = len(_corpus()["rule_names"])
     if c < 0.3:
@@ -101,7 +105,7 @@ def gen_op(rng, s) -> Dict[str, Any]:
                 ed = ["charge", rng.randrange(8)]
             its.append(rcdata.spec(b, rng.randrange(1 << 30) if rng.random() < 0.7 else None, ed))
         return {"op": "cluster", "s": s(), "items": its, "batch_size": rng.choice([1, 2, 3, 5, n, n + 3]),
-                "attr": rng.random() < 0.6}
+                "attr": rng.random() < 0.6, "nan_every": rng.choice([None] * 6 + [2, 2, 3])}
     if c < 0.55:
         rows = []
         for _ in range(rng.randint(1, 10)):
@@ -200,6 +204,8 @@ def exec_op(op: Dict[str, Any], sim: Sim, world, pristine) -> None:
             _balance(op, sim, world, pristine)
         elif k == "crn":
             _crn(op, sim, world, pristine)
+        elif k == "crn_raise":
+            _crn_raise(op, sim, world, pristine)
         elif k == "crn_big":
             _crn_big(op, sim, world, pristine)
         elif k == "validate_big":
@@ -210,6 +216,9 @@ def exec_op(op: Dict[str, Any], sim: Sim, world, pristine) -> None:
         if not crash_armed:
             raise
         sim.event(k, "TerminatedWorkerError")
+
+
+_NAN = float("nan")
 
 
 def _cluster(op: Dict[str, Any], sim: Sim, world) -> None:
@@ -223,6 +232,8 @@ def _cluster(op: Dict[str, Any], sim: Sim, world) -> None:
             d: Dict[str, Any] = {"gml": g, "idx": i}
             if akey:
                 d[akey] = rcdata.invariant_attr(g)
+                if op.get("nan_every") and i % op["nan_every"] == 1:   # never the first entry: its type selects the comparison mode
+                    d[akey] = _NAN     # "no signature available": one shared not-a-number object, unequal to itself
             out.append(d)
         return out
 
@@ -234,6 +245,8 @@ def _cluster(op: Dict[str, Any], sim: Sim, world) -> None:
     bat, _ = bc2.fit(mk(), [], rule_key="gml", attribute_key=akey, batch_size=op["batch_size"])
     if op["batch_size"] < len(specs):
         sim.probe("cluster_batched")
+    if akey and op.get("nan_every"):
+        sim.probe("signature_not_equal_to_itself")
     for name, res in (("one_shot", one), ("batched", bat)):
         if len(res) != len(specs) or [d.get("idx") for d in res] != list(range(len(specs))):
             raise Violation(PROP, "BatchCluster.fit", "items_lost_or_reordered", name,
@@ -367,6 +380,37 @@ def _crn(op: Dict[str, Any], sim: Sim, world, pristine) -> None:
     species = sorted(d.get("smiles_nomap") for _, d in g_par.nodes(data=True) if d.get("kind") == "species")
     sim.state(("crn", op["setup"], op["repeats"], explicit, len(species)))
     sim.event("crn", {"species": species, "rxn": sum(1 for _, d in g_par.nodes(data=True) if d.get("kind") == "rxn")})
+
+
+# two elementary steps of the aldol mechanism; the first has a wildcard partner ("any base"), which the reactor refuses
+RAISE_RULES = ["[CH:4]([H:7])([H:8])[CH:5]=[O:6].[*-:9]>>[CH-:4]([H:8])[CH:5]=[O:6].[*:9][H:7]",
+               "[CH:4]([H:7])([H:8])[CH:5]=[O:6]>>[CH:4]([H:8])=[CH:5][O:6]([H:7])"]
+RAISE_SEEDS = ["CC=O", "CC(C)=O", "CCC=O", "O", "CCC(C)=O"]
+
+
+def _crn_raise(op: Dict[str, Any], sim: Sim, world, pristine) -> None:
+    rl = [RAISE_RULES[i] for i in op["rules"]]
+    seeds = list(op["seeds"])
+
+    def outcome(parallel: bool) -> Any:
+        crn = SynCRN(rules=list(rl), repeats=1, explicit_h=True, implicit_temp=False)
+        try:
+            g = crn.build(list(seeds), parallel=parallel, max_workers=op["workers"])
+        except TerminatedWorkerError:
+            raise
+        except Exception:  # the input is refused as a whole
+            return "raised"
+        return _graph_sig(g)
+
+    got = outcome(True)
+    with pristine:
+        want = outcome(False)
+    sim.probe("crn_task_fails_inside_reactor")
+    if got != want:
+        raise Violation(PROP, "SynCRN.build", "parallel_differs_from_serial", "a rule application fails inside the reactor",
+                        {"rules": op["rules"], "seeds": seeds, "parallel": got if got == "raised" else len(got[0]),
+                         "serial": want if want == "raised" else len(want[0])})
+    sim.event("crn_raise", "raised" if got == "raised" else len(got[0]))
 
 
 # 52 seeds: 49 alkanes that never react + a di-acid and two alcohols (mono-esters in step 1, di-esters only in step 2)
